@@ -29,13 +29,21 @@ LEVEL_TEXT = (
     "no_dependent_of_unfinished_runs); the loop never waits on an empty queue, never raises an internal error and "
     "ends within #keys iterations (no_hang); every call emits exactly one finish event, last, with failed=true iff "
     "it does not return normally, also when start_state_from_dask raises (finish_cb_exactly_once, "
-    "finish_cb_when_start_raises). The exception object is opaque to the model: type/message/wrapping "
-    "(multiprocessing remote_exception) are validated on the real code only.")
+    "finish_cb_when_start_raises); when the failure is seen every input of the failed task is still in the scheduler's "
+    "cache with its denoted value, so rerun_exceptions_locally=True re-executes it on the worker's inputs and cannot "
+    "raise KeyError (rerun_locally_inputs_cached). VALIDATED ONLY: the exception object is opaque to the model - type, "
+    "message and wrapping are checked on the real code: under the controlled executor, on get_sync / threaded / "
+    "ThreadPoolExecutor / multiprocessing at API level, and at function level for the whole transport chain of the "
+    "multiprocessing scheduler (pack_exception -> dumps -> loads -> reraise/remote_exception) over a zoo of exception "
+    "classes (custom __init__ signatures, keyword-only, unpicklable attribute / argument, __reduce__ raising, __slots__, "
+    "OSError with filename, StopIteration, ExceptionGroup, BaseException subclasses, classes built at run time).")
 LEVEL_NOTE = (
     "Not modelled: OS thread/process timing (adversarial completion order is), the exception object, tracebacks, "
     "`remote_exception` dynamic subclassing in dask/multiprocessing.py (checked by oracle: isinstance of the original "
     "type, message contained), futures still running in the pool after the raise (dask does not cancel them; they "
-    "are not dependents). rerun_exceptions_locally=True is validated by the API-level runs only.")
+    "are not dependents). Review round: the multiprocessing transport lost type and message of exceptions that pickle "
+    "cannot rebuild or serialise (the former finding, and the much more common custom-__init__ case); repaired in /repo "
+    "(ea4f7f4), finding retired. Remaining limit of that repair: an exception CLASS that cannot be pickled at all.")
 TECHNIQUE = "Lean 4 invariant proof over an adversarial state machine with failure injection + differential correspondence"
 ASSUMPTIONS = ["a task either returns its value or raises, deterministically per task (`fails`)"]
 TRUSTED = ["concurrent.futures / multiprocessing deliver completions and exceptions"]
@@ -58,6 +66,19 @@ def oracle_failure(ctx, out, inp, what="controlled"):
     real, dag, fails = out["real"], out["dag"], out["fails"]
     nodes = dag["nodes"]
     if any(nd[0] == "x" for nd in nodes):
+        # a graph that lacks a dependency: whatever the call does, the finish callback runs once, last, and says
+        # failed exactly when the call raised
+        evs = real.get("events") or []
+        fin0 = [e for e, _ in evs if e[0] == "finish"]
+        if what == "controlled" and evs and not isinstance(real["error"], U.Hang):
+            if len(fin0) != 1 or evs[-1][0][0] != "finish":
+                ctx.fail(f"{what}: finish callback did not run exactly once as the last event (malformed graph)",
+                         observed=[e for e, _ in evs][-4:])
+            elif fin0[0][1] != (real["error"] is not None):
+                ctx.fail(f"{what}: finish callback got the wrong `failed` flag (malformed graph)", observed=fin0[0],
+                         expected=real["error"] is not None)
+            if real["error"] is not None:
+                ctx.branch("malformed-graph-raises")
         return
     flat = out["flat_ids"]
     needed = U.needed_ids(dag, flat)
@@ -163,7 +184,7 @@ def case_api(ctx, inp):
     fails_i = {int(k): v for k, v in fails.items()}
     rng = random.Random(inp.get("seed", 0))
     tasks = [i for i, nd in enumerate(dag["nodes"]) if nd[0] == "t"]
-    delays = {i: rng.choice([0, 0, 0.0005, 0.002]) for i in tasks} if sched in ("threaded", "threadpool") else {}
+    delays = {i: rng.choice([0, 0, 0.0005, 0.002]) for i in tasks} if sched not in ("sync", "mp") else {}
     dsk, keys = U.render(dag, fails_i, delays)
     real_req = U.map_req(req, lambda i: keys[i])
     fin = []
@@ -187,6 +208,9 @@ def case_api(ctx, inp):
         elif sched == "mp":
             from dask.multiprocessing import get as mget
             res = mget(dsk, real_req, num_workers=nw, chunksize=cs, **kw)
+        elif sched in ("threaded-in-thread", "pool-arg", "apply_async"):
+            from props.c01 import run_custom
+            res = run_custom(sched, dsk, real_req, nw, cs, **kw)
     except BaseException as e:
         if isinstance(e, (KeyboardInterrupt, SystemExit)) or type(e).__name__ == "CaseTimeout":
             raise
@@ -323,12 +347,15 @@ def _with_fail(rng, max_n, kinds=("Boom", "Boom", "ValueError", "BaseBoom", "Zer
 
 def generate(ctx):
     rng = ctx.rng
+    for _ in range(ctx.n(40, 400)):
+        # graphs that lack a dependency: start_state_from_dask raises, the `finally:` still calls finish(failed=True)
+        yield "trace", U.gen_trace_input(rng, max_n=rng.choice([3, 6]), missing_p=1.0)
     for _ in range(ctx.n(1500, 8000)):
         inp = _with_fail(rng, rng.choice([4, 7, 10, 14, 18]))
         if rng.random() < 0.2:
             inp["rerun"] = True
         yield "trace", inp
-    scheds = ["sync", "threaded", "threaded", "threadpool"]
+    scheds = ["sync", "threaded", "threaded", "threadpool", "threaded-in-thread", "pool-arg", "apply_async"]
     for _ in range(ctx.n(80, 1200)):
         inp = _with_fail(rng, rng.choice([6, 12, 25]), kinds=("Boom", "Boom", "ValueError", "BaseBoom", "ZeroDivisionError") + U.EXOTIC_KINDS)
         yield "api", {"dag": inp["dag"], "req": inp["req"], "sched": rng.choice(scheds), "nw": rng.choice([1, 2, 4, 8]),
